@@ -57,6 +57,8 @@ where
   dispatcher.receiver_count.store(1, Ordering::Relaxed);
 
   let (p, c) = mailbox::channel(mailbox_capacity);
+  let p = Arc::new(p);
+  dispatcher.register_mailbox(&p);
 
   let sender = TopicSender {
     dispatcher: Arc::clone(&dispatcher),
@@ -66,7 +68,7 @@ where
   let receiver = TopicReceiver {
     dispatcher: Arc::downgrade(&dispatcher),
     consumer: c,
-    producer_mailbox: Arc::new(p),
+    producer_mailbox: p,
     subscriptions: Arc::new(Mutex::new(HashSet::new())),
     closed: AtomicBool::new(false),
   };
@@ -89,6 +91,8 @@ where
   dispatcher.receiver_count.store(1, Ordering::Relaxed);
 
   let (p, c) = mailbox::channel(mailbox_capacity);
+  let p = Arc::new(p);
+  dispatcher.register_mailbox(&p);
 
   let sender = AsyncTopicSender {
     dispatcher: Arc::clone(&dispatcher),
@@ -98,7 +102,7 @@ where
   let receiver = AsyncTopicReceiver {
     dispatcher: Arc::downgrade(&dispatcher),
     consumer: c,
-    producer_mailbox: Arc::new(p),
+    producer_mailbox: p,
     subscriptions: Arc::new(Mutex::new(HashSet::new())),
     closed: AtomicBool::new(false),
   };
